@@ -256,11 +256,11 @@ def judge_loop(o):
 class C39(Check):
     id = "C39"
     level = "model_checking"
-    rule = ("(a) _update_next on a real PeriodicCallback for every sequence of <= K clock readings taken relative to the "
+    rule = ("(a) _update_next on a real PeriodicCallback for every sequence of <= K clock readings (K = 4 quick, 6 thorough) taken relative to the "
             "scheduled time from {0, p/4, p/2, p, 3p/2, 5p/2, 10p, 1000p late; p/2, 2p early (clock went backwards)}, for 5 "
             "exactly representable (period, start) pairs (exact invariants) and 6 epoch-scale pairs incl. a 1 microsecond "
             "period (tolerance 4 ulp); (b) sync and coroutine callbacks on the real IOLoop with a virtual clock, every "
-            "sequence of <= D events from {fire timer, complete the running invocation, stop, start, stop+start while "
+            "sequence of <= D events (D = 6 quick, 9 thorough; 2 fewer for the timedelta and own-clock kinds) from {fire timer, complete the running invocation, stop, start, stop+start while "
             "running, 1.5 periods pass during an invocation}, period 1000 ms and timedelta(2.5 ms); state = one sequence / schedule; non-trivial = sequences containing a late, early or restart step")
     claim = ("Every scheduled time is later than the previous one, on the grid start + k*period, not before the current "
              "time and (clock monotone) at most one period ahead; a coroutine callback is never started while the previous "
@@ -270,8 +270,8 @@ class C39(Check):
     assumptions = ["readings are taken relative to the scheduled time because the loop never fires a timeout before its deadline"]
 
     def partitions(self, tier):
-        K = 4 if tier == "quick" else 5
-        D = 6 if tier == "quick" else 8
+        K = 4 if tier == "quick" else 6
+        D = 6 if tier == "quick" else 9
         parts = [("upd", i, ex, K) for ex in (True, False) for i in range(len(EXACT) if ex else len(EPOCHS))]
         parts += [("loop", kind, D) for kind in ("sync", "coro")]
         parts += [("loop", kind, D - 2) for kind in ("sync-td", "coro-td")]
